@@ -15,7 +15,8 @@ LEVEL_TEXT = ("TLC explores MBuffObj.tla exhaustively in a small scope (all hist
               "against the same actions.")
 LEVEL_NOTE = ("Bounded scope for the exhaustive part; beyond it only the recorded executions. Trusted: TLC, the harness projection "
               "(harness/mbuff_replay.c), ASan (a read between len and size of the same heap block is invisible to it; such reads show "
-              "only as wrong answers). Not claimed: a negative splice count where the two readings differ, an empty seekable input to "
+              "only as wrong answers). E (either accepted): the return value of (n)cmp_with_ptr with a count beyond the buffer's length and an "
+              "equal prefix (EQUAL or LESS). Not claimed: a negative splice count where the two readings differ, an empty seekable input to "
               "the stream/descriptor constructors, read() errors/EINTR, sprintf beyond %s/%d/literal formats.")
 TECHNIQUE = "TLA+ spec + TLC exhaustive transition cover replayed on the implementation + TLC trace validation"
 DESIGN_REF = "DESIGN.md section 6 C07 (shape of C01), 8a Strings"
@@ -322,10 +323,6 @@ def gen_ops(rnd, m, nops, small):
 SIZES = [0, 1, 4095, 4096, 4097, 8193, 20000]
 
 
-def _is_big(ops):
-    return any(isinstance(x, list) and len(x) > 12000 for _, args in ops for x in args)
-
-
 def gen_executions(ctx):
     """Each execution: (list of (op, args))."""
     rnd = random.Random(ctx.seed)
@@ -391,21 +388,14 @@ def validate_events(ctx, events, tag):
     raise Broken("trace validation run failed without a verdict:\n%s" % "\n".join(res.tail[-30:]))
 
 
-def record_and_validate(ctx, exe, execs, variant="direct", tag="mbuff", noheap=()):
+def record_and_validate(ctx, exe, execs, variant="direct", tag="mbuff"):
     """Runs the programs in record mode on the implementation, turns the records into events and lets TLC validate
     them against MBuffObjTrace.  Returns a dict of counters; failures are reported through ctx.report."""
     from vlib.replay import run_scripts
     texts = [script_of(k + 1, ops) for k, ops in enumerate(execs)]
-    # tokens above 64 KB make the harness runtime grow its string builders inside the measured heap window: executions
-    # with such values are recorded without the heap-balance postlude (the same code paths run with it at 8193 bytes)
-    big = [k for k in range(len(execs)) if k in noheap]
-    small = [k for k in range(len(execs)) if k not in noheap]
-    fails, recs = [], []
-    for grp, env, tg in ((small, None, "rec-" + tag), (big, {"VH_NO_HEAP": "1"}, "recbig-" + tag)):
-        if grp:
-            f_, r_, ns, nt = run_scripts(exe, [variant], [texts[k] for k in grp], ctx.rundir, jobs=4, env=env, tag=tg)
-            fails += f_
-            recs += r_
+    # record mode has no expected tokens to size the harness's token builders from: VH_TOKEN_MAX sizes them outside the
+    # measured heap window, so executions with 20000-byte values get the heap-balance postlude too
+    fails, recs, ns, nt = run_scripts(exe, [variant], texts, ctx.rundir, jobs=4, env={"VH_TOKEN_MAX": "400000"}, tag="rec-" + tag)
     bad = {}
     for f in fails:
         if f.kind == "inv" and f.got.startswith("harness:op_") and f.got.endswith("_on_absent_slot"):
@@ -489,10 +479,7 @@ def record_and_validate(ctx, exe, execs, variant="direct", tag="mbuff", noheap=(
 
 def trace_validation(ctx, exe, variant="direct"):
     execs = gen_executions(ctx)
-    noheap = set(k for k, ops in enumerate(execs) if _is_big(ops))
-    r = record_and_validate(ctx, exe, execs, variant, noheap=noheap)
-    ctx.cov.setdefault("notes", []).append("%d of %d recorded executions (values > 12000 bytes) ran without the heap-balance postlude" % (
-        len(noheap), len(execs)))
+    r = record_and_validate(ctx, exe, execs, variant)
     ctx.add("trace_events_validated", r["accepted_events"])
     ctx.add("traces_validated_against_impl", r["recorded"])
     ctx.cov["trace"] = {"executions": r["executions"], "executions_recorded": r["recorded"], "events": r["events"],
